@@ -58,10 +58,12 @@ package storage
 //@   ensures result != nil
 //@   modifies nothing
 
-// The iterator yields names[index] and advances; it is done exactly when the
-// index has reached the end.
+// The iterator first reports the error of the walk that collected the names, if
+// there was one (the listing is then incomplete); otherwise it yields
+// names[index] and advances, and is done exactly when the index has reached the end.
 //@ contract (*FSObjectIterator).Next
 //@   requires it.index >= 0
-//@   ensures old(it.index) < len(it.names) ==> err == nil && name == it.names[old(it.index)] && it.index == old(it.index)+1
-//@   ensures old(it.index) >= len(it.names) ==> err == ErrObjectIteratorDone && name == "" && it.index == old(it.index)
+//@   ensures it.err != nil ==> err == it.err && name == "" && it.index == old(it.index)
+//@   ensures it.err == nil && old(it.index) < len(it.names) ==> err == nil && name == it.names[old(it.index)] && it.index == old(it.index)+1
+//@   ensures it.err == nil && old(it.index) >= len(it.names) ==> err == ErrObjectIteratorDone && name == "" && it.index == old(it.index)
 //@   modifies it.index
